@@ -3,10 +3,19 @@
 Finite product, enumerated completely:
 
   format names   every name registered in FormatChecker.checkers or in a draft
-                 checker object, plus "nope", "" and "cust"
+                 checker object, plus "nope", "", "cust", a built-in name in
+                 capitals and "maxlen:0" (names no stock checker knows)
   instances      one valid + one invalid string per built-in family, "", and the
                  non-strings null true false 0 -1 1.5 2**32 2**128 10**400 []
                  ["127.0.0.1"] {} {"a": "b"}
+  non-JSON       Python values a binary deserialiser or a caller may hand over:
+                 bytes of every string of the alphabet (so: valid and invalid
+                 as regex / address / date), undecodable bytes, bytearray,
+                 memoryview, tuples, sets, frozensets, Decimal, Fraction,
+                 complex, nan, inf, custom objects, UserString, a class,
+                 Ellipsis, range, OrderedDict -- none of them is a string, every
+                 built-in format passes them -- and a str-subclass instance of
+                 every string of the alphabet, which *is* a string
   checkers       None | FormatChecker() | FormatChecker(formats=S) for every
                  S <= a 3-name set | every draft checker object | custom
                  functions (registered on fresh FormatChecker *instances*, never
@@ -16,21 +25,57 @@ Finite product, enumerated completely:
                  listed one -- x raises in {(), ValueError, (KeyError, ValueError)}
                  x base checker {empty, FormatChecker()} x registered under
                  {"cust", a built-in name, ""}
+  exceptions     a custom function raising an instance of every exception class
+                 of `builtins` (BaseException-only ones included), of four
+                 user-defined classes (plain, StopIteration subclass,
+                 BaseException subclass, KeyError+ValueError) and of four library
+                 classes, each under seven `raises` registrations: nothing, the
+                 class itself, its direct base, a tuple naming it, an unrelated
+                 class, a strict subclass of it, Exception; and a function that
+                 really runs out of stack.  Model: listed <=> issubclass(class of
+                 the raised object, raises)
+  checker        objects whose check() is overridden: a parametrised family of
+  subclasses     names decided in check() and absent from .checkers, a
+                 name-normalising one, a chain of other checkers, one that mutes
+                 names present in .checkers, one overriding check() and
+                 conforms() over an empty table, a duck-typed object without
+                 .checkers, one whose check() raises -- the validator has to
+                 follow the object it was given
   validators     Draft 3 / 4 / 6 / 7 classes
   position       `format` at the top of the schema / below `properties`
                  (thorough: also below items, additionalProperties, behind $ref;
                  a second valid/invalid string per family; ten more non-strings)
 
-Oracle: the small model `expected()` below, written from the documentation of
-FormatChecker and of the `format` keyword -- nothing else.
+Histories -- every leaf history runs in its own forked child of a fresh
+interpreter (mc/explore/isolated.py), the model is consulted after every step:
+
+  H1  one FormatChecker object + long-lived validators on it: all operation
+      sequences of depth 3 (thorough 4) over {validate s1 / s2 under two names
+      through the validator / through conforms(), re-register a name with one of
+      three functions, set the mode of the stateful function to True / False /
+      raise-listed / raise-unlisted}
+  H2  per built-in name: a lax custom checker, a strict custom checker and up to
+      two stock checker objects that know the name: all interleavings of depth 3
+      (thorough 4) of (object, valid / invalid string); every answer has to be
+      the one of that object's own function
+
+Oracle: the small models `expected()`, World1.model, World2.apply below, written
+from the documentation of FormatChecker and of the `format` keyword.
 """
+import builtins
+import collections
+import decimal
+import fractions
+import ipaddress
+import itertools
 import re
 
 import jsonschema
 from jsonschema import (Draft3Validator, Draft4Validator, Draft6Validator,
                         Draft7Validator, FormatChecker)
-from jsonschema.exceptions import FormatError
+from jsonschema.exceptions import FormatError, RefResolutionError, ValidationError
 
+from mc.explore import isolated
 from mc.ref import formats as F
 
 ID = "C12"
@@ -43,8 +88,12 @@ DRAFTS = (3, 4, 6, 7)
 
 DRAFT_CHECKERS = [a for a in sorted(dir(jsonschema)) if re.fullmatch(r"draft\d+_format_checker", a)]
 CLASS_REGISTRY = dict(FormatChecker.checkers)           # snapshot: must never change (we never use cls_checks)
-REGISTERED = sorted(set(CLASS_REGISTRY) | {n for a in DRAFT_CHECKERS for n in getattr(jsonschema, a).checkers})
-NAMES = REGISTERED + ["nope", "", "cust"]
+DRAFT_REGISTRIES = {a: dict(getattr(jsonschema, a).checkers) for a in DRAFT_CHECKERS}      # nor these
+REGISTERED = sorted(set(CLASS_REGISTRY) | {n for a in DRAFT_CHECKERS for n in DRAFT_REGISTRIES[a]})
+BUILTIN_REG = "ipv4" if "ipv4" in CLASS_REGISTRY else sorted(CLASS_REGISTRY)[0]
+NAMES = REGISTERED + ["nope", "", "cust", BUILTIN_REG.upper(), "maxlen:0"]
+# only for the checker subclasses, some of which do know them
+SUB_NAMES = ["maxlen:3", "maxlen:x", "EMAIL", " " + BUILTIN_REG.capitalize() + " ", "Date", "boom"]
 
 STRINGS_BY_FAMILY = {
     "ipv4": ("127.0.0.1", "256.0.0.1"),
@@ -113,16 +162,110 @@ class Special(object):
 SPECIALS = [Special("pow10", 5000), Special("nested-array", 3000)]
 
 
+# ---- Python values that are not JSON values (cases carry the key of the table)
+
+class StrSub(str):
+    """An instance of a str subclass is a string."""
+
+
+class Obj(object):
+    def __repr__(self):
+        return "<Obj>"
+
+
+class ObjStr(object):
+    """Not a string, although str() of it is an invalid regex / address / date."""
+
+    def __str__(self):
+        return "("
+
+    def __repr__(self):
+        return "<ObjStr>"
+
+
+def _py_table():
+    t = collections.OrderedDict()
+    for s in strings("quick"):
+        t["bytes:" + s] = lambda s=s: s.encode("utf-8")
+    t["bytes:fffe"] = lambda: b"\xff\xfe"
+    for s in ("(", STRINGS_BY_FAMILY["ipv4"][1], STRINGS_BY_FAMILY["date"][1]):
+        t["bytearray:" + s] = lambda s=s: bytearray(s.encode("utf-8"))
+    t["memoryview:("] = lambda: memoryview(b"(")
+    t["tuple:empty"] = lambda: ()
+    for s in ("(", STRINGS_BY_FAMILY["ipv4"][1]):
+        t["tuple:" + s] = lambda s=s: (s,)
+        t["set:" + s] = lambda s=s: {s}
+        t["frozenset:" + s] = lambda s=s: frozenset([s])
+    t["set:empty"] = lambda: set()
+    t["frozenset:empty"] = lambda: frozenset()
+    t["Decimal:1.5"] = lambda: decimal.Decimal("1.5")
+    t["Decimal:NaN"] = lambda: decimal.Decimal("NaN")
+    t["Fraction:1/3"] = lambda: fractions.Fraction(1, 3)
+    t["complex:1j"] = lambda: 1j
+    t["float:nan"] = lambda: float("nan")
+    t["float:inf"] = lambda: float("inf")
+    t["object"] = Obj
+    t["object-with-str"] = ObjStr
+    t["UserString:("] = lambda: collections.UserString("(")
+    t["type:int"] = lambda: int
+    t["Ellipsis"] = lambda: Ellipsis
+    t["range:3"] = lambda: range(3)
+    t["OrderedDict:empty"] = lambda: collections.OrderedDict()
+    for s in strings("quick"):
+        t["strsub:" + s] = lambda s=s: StrSub(s)
+    return t
+
+
+PY_TABLE = _py_table()
+
+
+class Py(object):
+    def __init__(self, key):
+        self.key = key
+
+    def build(self):
+        return PY_TABLE[self.key]()
+
+    def desc(self):
+        return {"__py__": self.key}
+
+
+PY_INSTANCES = [Py(k) for k in PY_TABLE]
+
+
 def real(x):
-    if isinstance(x, Special):
+    if isinstance(x, (Special, Py)):
         return x.build()
     if isinstance(x, dict) and "__special__" in x:
         return Special(*x["__special__"]).build()
+    if isinstance(x, dict) and "__py__" in x:
+        return PY_TABLE[x["__py__"]]()
     return x
 
 
-def instances(tier):
-    return strings(tier) + NONSTRINGS + (MORE_NONSTRINGS if tier == "thorough" else []) + SPECIALS
+NARROW_INSTANCES = ["a@b", "", None, {"a": "b"}]
+
+
+def takes_py(cfg):
+    """The non-JSON values go to every checker that is not a custom function, and to the custom functions that
+    return True / False / isinstance(instance, str) registered without `raises`."""
+    if cfg["kind"] != "custom":
+        return True
+    b = cfg["behaviour"]
+    return cfg["raises"] == "none" and (b[0] == "pred" or (b[0] == "return" and b[1] in (0, 1)))
+
+
+def instances_for(cfg, tier):
+    if cfg.get("scope") == "narrow":
+        return NARROW_INSTANCES
+    out = strings(tier) + NONSTRINGS + (MORE_NONSTRINGS if tier == "thorough" else []) + SPECIALS
+    return out + PY_INSTANCES if takes_py(cfg) else out
+
+
+def names_for(cfg):
+    if cfg.get("scope") == "narrow":
+        return [cfg["reg"], "nope"]
+    return NAMES + SUB_NAMES if cfg["kind"] == "subclass" else NAMES
 
 
 def positions(tier):
@@ -142,9 +285,9 @@ def place(pos, name, x):
         return {"additionalProperties": f}, {"k": x}, ["k"]
     return {"definitions": {"f": f}, "$ref": "#/definitions/f"}, x, []
 
+
 _pref = [n for n in ("ipv4", "date", "regex") if n in CLASS_REGISTRY]
 SUBSET_BASE = (_pref + [n for n in sorted(CLASS_REGISTRY) if n not in _pref])[:3]
-BUILTIN_REG = "ipv4" if "ipv4" in CLASS_REGISTRY else sorted(CLASS_REGISTRY)[0]
 
 RETURNS = [True, False, 0, 1, "", "x", None, []]
 RAISES = {"none": (), "ValueError": ValueError, "tuple": (KeyError, ValueError)}
@@ -158,9 +301,109 @@ RAISE_KINDS = {"listed": (ValueError, True), "listed-subclass": (UnicodeError, T
                "StopIteration": (StopIteration, False)}
 
 
+# ---- the wide exception alphabet
+
+class UserError(Exception):
+    pass
+
+
+class UserStop(StopIteration):
+    pass
+
+
+class UserBase(BaseException):
+    pass
+
+
+class UserKeyValue(KeyError, ValueError):
+    pass
+
+
+def _exception_alphabet():
+    out = collections.OrderedDict()
+    for n in sorted(dir(builtins)):
+        E = getattr(builtins, n)
+        if isinstance(E, type) and issubclass(E, BaseException) and E.__name__ == n:      # aliases once
+            out[n] = E
+    for n, E in (("UserError", UserError), ("UserStop", UserStop), ("UserBase", UserBase),
+                 ("UserKeyValue", UserKeyValue), ("jsonschema.ValidationError", ValidationError),
+                 ("jsonschema.RefResolutionError", RefResolutionError),
+                 ("ipaddress.AddressValueError", ipaddress.AddressValueError), ("re.error", re.error)):
+        out[n] = E
+    return out
+
+
+EXC = _exception_alphabet()
+
+
+def make_exc(name):
+    E = EXC[name]
+    if issubclass(E, UnicodeDecodeError):
+        return E("utf-8", b"x", 0, 1, "boom")
+    if issubclass(E, UnicodeEncodeError):
+        return E("utf-8", "x", 0, 1, "boom")
+    if issubclass(E, UnicodeTranslateError):
+        return E("x", 0, 1, "boom")
+    if issubclass(E, BaseExceptionGroup):
+        return E("boom", [ValueError("inner")] if issubclass(E, Exception) else [UserBase("inner")])
+    return E("boom")
+
+
+for _n in EXC:
+    assert type(make_exc(_n)) is EXC[_n], _n
+
+EXC_SUBCLASS = {n: type("Sub" + E.__name__, (E,), {}) for n, E in EXC.items()}
+MODES = ("none", "self", "base", "tuple", "unrelated", "subclass", "Exception")
+
+
+def _unrelated(E):
+    for U in (ValueError, KeyError, OSError, ArithmeticError):
+        if not issubclass(E, U) and not issubclass(U, E):
+            return U
+    return None
+
+
+def raises_spec(name, mode):
+    """The `raises` argument of one registration; None = this mode does not exist for the class."""
+    E = EXC[name]
+    if mode == "none":
+        return ()
+    if mode == "self":
+        return E
+    if mode == "base":
+        b = E.__mro__[1]
+        return None if b is object else b
+    if mode == "tuple":
+        U = _unrelated(E)
+        return (E,) if U is None else (U, E)
+    if mode == "unrelated":
+        return _unrelated(E)
+    if mode == "subclass":
+        return EXC_SUBCLASS[name]
+    return Exception
+
+
+def raised_name(cfg):
+    b = cfg["behaviour"]
+    return "RecursionError" if b[0] == "recurse" else b[1]
+
+
 def is_listed(cfg_raises, kind):
     flag = RAISE_KINDS[kind][1]
     return flag is True or flag == cfg_raises
+
+
+def cfg_listed(cfg):
+    """Is the exception the custom function of this configuration raises one it was registered with?"""
+    b = cfg["behaviour"]
+    if b[0] in ("raise-class", "recurse"):
+        return issubclass(EXC[raised_name(cfg)], raises_spec(raised_name(cfg), cfg["raises"][1]))
+    return b[1] != "unlisted-nothing-listed" and is_listed(cfg["raises"], b[1])
+
+
+SUBCLASS_KINDS = [("family", "default"), ("family", "empty"), ("normalising", "default"), ("normalising", "empty"),
+                  ("chain", "empty"), ("muting", "default"), ("both", "empty"), ("duck", "empty"),
+                  ("raising", "default")]
 
 
 def all_configs():
@@ -171,20 +414,157 @@ def all_configs():
         out.append({"kind": "subset", "formats": list(SUBSET_BASE[:2]), "as": how})
     for a in DRAFT_CHECKERS:
         out.append({"kind": "draft", "attr": a})
-    for base in ("empty", "default"):
-        for reg in ("cust", BUILTIN_REG, ""):
-            for rs in ("none", "ValueError", "tuple"):
-                behs = [["return", i] for i in range(len(RETURNS))] + [["pred", "isstr"]]
-                if rs == "none":
-                    behs.append(["raise", "unlisted-nothing-listed"])
-                else:
-                    behs += [["raise", k] for k in sorted(RAISE_KINDS)]
-                for b in behs:
+    for sub, base in SUBCLASS_KINDS:
+        out.append({"kind": "subclass", "sub": sub, "base": base})
+    # behaviour outermost: the configurations of one behaviour sit in neighbouring work units
+    behs = [["return", i] for i in range(len(RETURNS))] + [["pred", "isstr"], ["raise", "unlisted-nothing-listed"]]
+    behs += [["raise", k] for k in sorted(RAISE_KINDS)]
+    for b in behs:
+        for base in ("empty", "default"):
+            for reg in ("cust", BUILTIN_REG, ""):
+                for rs in ("none", "ValueError", "tuple"):
+                    if b[0] == "raise" and (rs == "none") != (b[1] == "unlisted-nothing-listed"):
+                        continue
                     out.append({"kind": "custom", "base": base, "reg": reg, "raises": rs, "behaviour": b})
-    return out
+    wide = len(out)
+    for n in list(EXC) + [None]:
+        for base in ("empty", "default"):
+            for reg in ("cust", BUILTIN_REG, ""):
+                for m in MODES:
+                    if raises_spec(n or "RecursionError", m) is not None:
+                        out.append({"kind": "custom", "base": base, "reg": reg, "raises": ["mode", m],
+                                    "behaviour": ["raise-class", n] if n else ["recurse"], "scope": "narrow"})
+    return out, wide
 
 
-CONFIGS = all_configs()
+CONFIGS, N_WIDE = all_configs()
+
+
+# ---- checker classes that override check()
+
+class FamilyChecker(FormatChecker):
+    """Decides the parametrised names maxlen:<n> by itself; they are not in .checkers."""
+
+    def check(self, instance, format):
+        if isinstance(format, str) and format.startswith("maxlen:") and format[7:] in ("0", "1", "2", "3"):
+            if isinstance(instance, str) and len(instance) > int(format[7:]):
+                raise FormatError("%r is longer than %s" % (instance, format[7:]))
+            return
+        return FormatChecker.check(self, instance, format)
+
+
+class NormalisingChecker(FormatChecker):
+    def check(self, instance, format):
+        return FormatChecker.check(self, instance, format.strip().lower())
+
+
+class ChainChecker(FormatChecker):
+    """Asks its links; its own table is empty."""
+
+    def __init__(self, links):
+        FormatChecker.__init__(self, formats=())
+        self.links = links
+
+    def check(self, instance, format):
+        for link in self.links:
+            link.check(instance, format)
+
+
+class MutingChecker(FormatChecker):
+    """Has the names in .checkers but was told to let some of them pass."""
+    muted = frozenset([BUILTIN_REG, "email"])
+
+    def check(self, instance, format):
+        if format in self.muted:
+            return
+        return FormatChecker.check(self, instance, format)
+
+
+def _both_rule(instance, format):
+    return not (format == "cust" and not instance)
+
+
+class BothChecker(FormatChecker):
+    """check() and conforms() both overridden (consistently), nothing registered."""
+
+    def __init__(self):
+        FormatChecker.__init__(self, formats=())
+
+    def check(self, instance, format):
+        if not _both_rule(instance, format):
+            raise FormatError("falsy")
+
+    def conforms(self, instance, format):
+        return _both_rule(instance, format)
+
+
+class DuckChecker(object):
+    """Not a FormatChecker and without a table: all a validator may use is check()."""
+
+    def check(self, instance, format):
+        if not _both_rule(instance, format):
+            raise FormatError("falsy")
+
+    def conforms(self, instance, format):
+        return _both_rule(instance, format)
+
+
+class RaisingChecker(FormatChecker):
+    holder = None
+
+    def check(self, instance, format):
+        if format == "boom":
+            self.holder["calls"] += 1
+            self.holder["exc"] = e = RuntimeError("boom")
+            raise e
+        return FormatChecker.check(self, instance, format)
+
+
+def _short(instance):
+    return not isinstance(instance, str) or len(instance) <= 3
+
+
+def sub_base_known(cfg):
+    if cfg["sub"] == "chain":
+        return {BUILTIN_REG}
+    return set(CLASS_REGISTRY) if cfg["base"] == "default" else set()
+
+
+def sub_model(cfg, name, x):
+    """-> "pass" | "fail" | "propagate" | ("stock", name2): what a stock checker says about name2."""
+    sub = cfg["sub"]
+    if sub == "family":
+        m = re.fullmatch(r"maxlen:([0-3])", name)
+        if m:
+            return "fail" if isinstance(x, str) and len(x) > int(m.group(1)) else "pass"
+        return ("stock", name)
+    if sub == "normalising":
+        return ("stock", name.strip().lower())
+    if sub == "chain":
+        if name == "cust":
+            return "pass" if _short(x) else "fail"
+        return ("stock", name)
+    if sub == "muting":
+        return "pass" if name in MutingChecker.muted else ("stock", name)
+    if sub in ("both", "duck"):
+        return "fail" if name == "cust" and not x else "pass"
+    return "propagate" if name == "boom" else ("stock", name)
+
+
+def sub_decides(cfg, name):
+    """Does the checker object decide anything under this name (counting and signatures only)?"""
+    sub = cfg["sub"]
+    if sub == "family" and re.fullmatch(r"maxlen:([0-3])", name):
+        return True
+    if sub == "normalising":
+        return name.strip().lower() in sub_base_known(cfg)
+    if sub == "chain":
+        return name in ("cust", BUILTIN_REG)
+    if sub in ("both", "duck"):
+        return name == "cust"
+    if sub == "raising" and name == "boom":
+        return True
+    return name in sub_base_known(cfg)
 
 
 class Built(object):
@@ -195,6 +575,7 @@ class Built(object):
         self.holder = {"exc": None, "calls": 0}
         k = cfg["kind"]
         self.custom_name = None
+        self.ref = None
         if k == "none":
             self.chk, self.known = None, set()
         elif k == "default":
@@ -209,15 +590,44 @@ class Built(object):
         elif k == "draft":
             self.chk = getattr(jsonschema, cfg["attr"])
             self.known = set(self.chk.checkers)
+        elif k == "subclass":
+            sub = cfg["sub"]
+            formats = None if cfg["base"] == "default" else ()
+            if sub == "family":
+                self.chk = FamilyChecker(formats=formats)
+            elif sub == "normalising":
+                self.chk = NormalisingChecker(formats=formats)
+            elif sub == "chain":
+                first = FormatChecker(formats=())
+                first.checks("cust")(_short)
+                self.chk = ChainChecker([first, FormatChecker(formats=[BUILTIN_REG])])
+            elif sub == "muting":
+                self.chk = MutingChecker()
+            elif sub == "both":
+                self.chk = BothChecker()
+            elif sub == "duck":
+                self.chk = DuckChecker()
+            else:
+                self.chk = RaisingChecker()
+                self.chk.holder = self.holder
+            self.known = None if sub == "duck" else (set() if sub in ("chain", "both") else sub_base_known(cfg))
+            self.ref = FormatChecker()          # an untouched stock checker: what "the stock behaviour" is
         else:
             self.chk = FormatChecker(formats=()) if cfg["base"] == "empty" else FormatChecker()
             self.known = (set() if cfg["base"] == "empty" else set(CLASS_REGISTRY)) | {cfg["reg"]}
             self.custom_name = cfg["reg"]
-            self.chk.checks(cfg["reg"], raises=RAISES[cfg["raises"]])(self.make_func(cfg["behaviour"]))
-        if self.chk is not None and set(self.chk.checkers) != self.known:
+            rs = cfg["raises"]
+            spec = RAISES[rs] if isinstance(rs, str) else raises_spec(raised_name(cfg), rs[1])
+            self.chk.checks(cfg["reg"], raises=spec)(self.make_func(cfg["behaviour"]))
+        if self.chk is not None and self.known is not None and set(self.chk.checkers) != self.known:
             self.known_mismatch = sorted(set(self.chk.checkers) ^ self.known)
         else:
             self.known_mismatch = None
+
+    def decides(self, name):
+        if self.cfg["kind"] == "subclass":
+            return sub_decides(self.cfg, name)
+        return name in self.known
 
     def make_func(self, beh):
         holder = self.holder
@@ -231,6 +641,24 @@ class Built(object):
             def func(instance):
                 holder["calls"] += 1
                 return isinstance(instance, str)
+        elif beh[0] == "raise-class":
+            name = beh[1]
+
+            def func(instance):
+                holder["calls"] += 1
+                holder["exc"] = e = make_exc(name)
+                raise e
+        elif beh[0] == "recurse":
+            def dive(instance):
+                return dive(instance)
+
+            def func(instance):
+                holder["calls"] += 1
+                try:
+                    return dive(instance)
+                except RecursionError as e:         # the interpreter's own, from running out of stack
+                    holder["exc"] = e
+                    raise
         else:
             exc_class = ValueError if beh[1] == "unlisted-nothing-listed" else RAISE_KINDS[beh[1]][0]
 
@@ -249,6 +677,13 @@ def expected(cfg, known, name, x):
           "propagate" (the raised object reaches the caller) | "either" (built-in x string: conforms() decides)."""
     if cfg["kind"] == "none":
         return "pass"                               # no checker: format has no effect
+    if cfg["kind"] == "subclass":
+        m = sub_model(cfg, name, x)
+        if not isinstance(m, tuple):
+            return m
+        if m[1] not in sub_base_known(cfg) or not isinstance(x, str):
+            return "pass"
+        return "either"                             # ... and equal to what a stock checker says about m[1]
     if name not in known:
         return "pass"                               # unknown names always pass
     if cfg["kind"] == "custom" and name == cfg["reg"]:
@@ -257,9 +692,7 @@ def expected(cfg, known, name, x):
             return "pass" if RETURNS[beh[1]] else "fail"
         if beh[0] == "pred":
             return "pass" if isinstance(x, str) else "fail"
-        if beh[1] != "unlisted-nothing-listed" and is_listed(cfg["raises"], beh[1]):
-            return "fail-cause"
-        return "propagate"
+        return "fail-cause" if cfg_listed(cfg) else "propagate"
     if not isinstance(x, str):
         return "pass"                               # built-in string formats ignore non-strings
     return "either"
@@ -271,15 +704,19 @@ def expected(cfg, known, name, x):
 def jtype(x):
     if x is None:
         return "null"
+    if isinstance(x, str):
+        return "string"
     if isinstance(x, bool):
         return "boolean"
     if isinstance(x, int):
         return "integer"
     if isinstance(x, float):
         return "number"
-    if isinstance(x, str):
-        return "string"
-    return "array" if isinstance(x, list) else "object"
+    if isinstance(x, list):
+        return "array"
+    if type(x) is dict:
+        return "object"
+    return "python-" + type(x).__name__
 
 
 def observe(built, d, pos, name, x):
@@ -295,7 +732,7 @@ def observe(built, d, pos, name, x):
         else:
             e = errs[0]
             ov = ("fail", len(errs), e.validator, e.cause, list(e.absolute_path), e.instance is x or e.instance == x)
-    except Exception as e:
+    except BaseException as e:
         ov = ("raise", e)
     exc_v = h["exc"]
     if built.chk is None:
@@ -306,13 +743,13 @@ def observe(built, d, pos, name, x):
         oc = ("pass", r)
     except FormatError as e:
         oc = ("fail", e.cause)
-    except Exception as e:
+    except BaseException as e:
         oc = ("raise", e)
     exc_c = h["exc"]
     h["exc"] = None
     try:
         of = ("ret", built.chk.conforms(x, name))
-    except Exception as e:
+    except BaseException as e:
         of = ("raise", e)
     exc_f = h["exc"]
     return ov, exc_v, oc, exc_c, of, exc_f
@@ -339,6 +776,7 @@ def judge(built, d, pos, name, x):
             return exp, obs, ("no-checker|raises-" + ename(ov[1]), None)
         return exp, obs, None
 
+    k = kind_of(cfg, built, name, x)
     # 1. conforms() is a bool and tells the same story as check()
     if of[0] == "ret" and type(of[1]) is not bool:
         return exp, obs, ("conforms-returns-" + type(of[1]).__name__, None)
@@ -348,17 +786,23 @@ def judge(built, d, pos, name, x):
         return exp, obs, ("conforms-vs-check|check-%s|conforms-%s" % (story_c, story_f), None)
     # 2. the validator tells the same story as conforms()
     if ov[0] != story_f:
-        return exp, obs, ("%s|validator-%s-but-conforms-%s" % (kind_of(cfg, built.known, name, x), obs, story_f),
-                          {"check": story_c})
+        return exp, obs, ("%s|validator-%s-but-conforms-%s" % (k, obs, story_f), {"check": story_c})
     if ov[0] == "fail":
         if ov[1] != 1 or ov[2] != "format" or ov[4] != where or not ov[5]:
             return exp, obs, ("error-shape", {"errors": ov[1], "validator": ov[2], "path": ov[4]})
         if (ov[3] is None) != (oc[1] is None) or type(ov[3]) is not type(oc[1]):
-            return exp, obs, ("%s|cause-differs-from-FormatError-cause" % kind_of(cfg, built.known, name, x),
+            return exp, obs, ("%s|cause-differs-from-FormatError-cause" % k,
                               {"validation_error_cause": repr(ov[3]), "format_error_cause": repr(oc[1])})
     # 3. the model
-    k = kind_of(cfg, built.known, name, x)
     if exp == "either":
+        if cfg["kind"] == "subclass":           # has to be what an untouched stock checker says about that name
+            n2 = sub_model(cfg, name, x)[1]
+            try:
+                ref = "pass" if built.ref.conforms(x, n2) else "fail"
+            except BaseException as e:
+                ref = "raise-" + ename(e)
+            if ref != story_f:
+                return exp, obs, ("%s|stock-checker-says-%s|observed-%s" % (k, ref, obs), {"stock_name": n2})
         return exp, obs, None
     if exp == "pass":
         if ov[0] != "pass":
@@ -378,17 +822,35 @@ def judge(built, d, pos, name, x):
     elif exp == "propagate":
         if ov[0] != "raise":
             return exp, obs, ("%s|expected-propagation|observed-%s" % (k, obs), None)
-        if ov[1] is not exc_v or oc[1] is not exc_c or of[1] is not exc_f:
-            return exp, obs, ("%s|propagated-object-is-not-the-raised-one" % k, {"got": repr(ov[1])})
+        wrong = [w for w, got, raised in (("validator", ov[1], exc_v), ("check", oc[1], exc_c), ("conforms", of[1], exc_f))
+                 if got is not raised]
+        if wrong:
+            if (wrong == ["validator"] and isinstance(exc_v, StopIteration) and type(ov[1]) is RuntimeError
+                    and ov[1].__cause__ is exc_v and "generator raised StopIteration" in str(ov[1])):
+                # PEP 479: the keyword function is a generator; the same conversion whatever the StopIteration
+                # subclass and whatever the (non-matching) registration
+                return exp, obs, ("custom-raise-StopIteration|propagated-object-is-not-the-raised-one",
+                                  {"got": repr(ov[1]), "raised": repr(exc_v)})
+            return exp, obs, ("%s|propagated-object-is-not-the-raised-one|%s" % (k, "+".join(wrong)),
+                              {"got": repr(ov[1]), "raised": repr(exc_v)})
     return exp, obs, None
 
 
-def kind_of(cfg, known, name, x):
+def kind_of(cfg, built, name, x):
     """Which clause of the property the case sits under (signature material)."""
-    if name not in known:
+    if cfg["kind"] == "subclass":           # which subclass it was is in the case; one defect, a handful of signatures
+        if not built.decides(name):
+            return "checker-subclass|unknown-name"
+        own = not isinstance(sub_model(cfg, name, x), tuple)
+        return "checker-subclass|name-%s|on-%s" % ("decided-in-check()" if own else "of-the-stock-table",
+                                                   "string" if isinstance(x, str) else "non-string")
+    if name not in built.known:
         return "unknown-name"
     if cfg["kind"] == "custom" and name == cfg["reg"]:
         b = cfg["behaviour"]
+        if b[0] in ("raise-class", "recurse"):
+            return "custom-%s-%s%s" % ("raise" if b[0] == "raise-class" else "really-raise", raised_name(cfg),
+                                       "-listed" if cfg_listed(cfg) else "")
         tail = repr(RETURNS[b[1]]) if b[0] == "return" else b[1]
         return "custom-%s-%s" % (b[0], tail)
     if not isinstance(x, str):
@@ -396,35 +858,284 @@ def kind_of(cfg, known, name, x):
     return "builtin-%s-on-string" % name
 
 
+# ---------------------------------------------------------------- histories (executed in the nursery)
+
+H_STR = list(STRINGS_BY_FAMILY.get(_family(BUILTIN_REG), ("a", "")))       # [conforming, non-conforming] for BUILTIN_REG
+H_NAMES = ["cust", BUILTIN_REG]
+H_FUNCS = ["only0", "only1", "mode"]
+H_MODES = [True, False, "listed", "unlisted"]
+H1_VAL = [[e, n, i] for e in ("v", "c") for n in H_NAMES for i in (0, 1)]
+H1_OPS = H1_VAL + [["r", n, g] for n in H_NAMES for g in H_FUNCS] + [["m", m] for m in H_MODES]
+H1_WORLDS = {"quick": [["default", 7], ["default", 4], ["empty", 3], ["empty", 6]],
+             "thorough": [[b, d] for b in ("default", "empty") for d in DRAFTS]}
+H1_DEPTH = {"quick": 3, "thorough": 4}
+H1_GROUP = {"quick": 3, "thorough": 1}           # first operations per unit
+H2_DEPTH = {"quick": 3, "thorough": 4}
+
+
+def registries_intact():
+    if dict(FormatChecker.checkers) != CLASS_REGISTRY:
+        return False
+    return all(dict(getattr(jsonschema, a).checkers) == DRAFT_REGISTRIES[a] for a in DRAFT_CHECKERS)
+
+
+def direct(func, raises, s):
+    """What a registration (function, raises) says about s, by calling the function."""
+    try:
+        r = func(s)
+    except raises:
+        return "fail"
+    return "pass" if r else "fail"
+
+
+class World1(object):
+    """One checker object, validators that live as long as it does, and the model of its registrations."""
+
+    def __init__(self, base, draft):
+        self.chk = FormatChecker() if base == "default" else FormatChecker(formats=())
+        self.table = set(CLASS_REGISTRY) if base == "default" else set()
+        self.reg = {n: ("builtin" if n in self.table else None) for n in H_NAMES}
+        self.mode, self.exc = True, None
+        self.vals = {n: CLS[draft]({"format": n}, format_checker=self.chk) for n in H_NAMES}
+
+    def func(self, g):
+        w = self
+        if g == "only0":
+            return (lambda x: x == H_STR[0]), ()
+        if g == "only1":
+            return (lambda x: x == H_STR[1]), ()
+
+        def stateful(x):
+            if w.mode is True or w.mode is False:
+                return w.mode
+            w.exc = e = (ValueError if w.mode == "listed" else RuntimeError)("boom")
+            raise e
+        return stateful, ValueError
+
+    def regkind(self, name):
+        r = self.reg[name]
+        return "unknown-name" if r is None else ("mode-%s" % (self.mode,) if r == "mode" else r)
+
+    def model(self, name, s):
+        r = self.reg[name]
+        if r is None:
+            return "pass"
+        if r == "builtin":
+            return direct(CLASS_REGISTRY[name][0], CLASS_REGISTRY[name][1], s)
+        if r == "only0":
+            return "pass" if s == H_STR[0] else "fail"
+        if r == "only1":
+            return "pass" if s == H_STR[1] else "fail"
+        return {True: "pass", False: "fail", "listed": "fail-cause", "unlisted": "propagate"}[self.mode]
+
+    def apply(self, op):
+        """-> [outcome class, observation, problem or None]"""
+        bad = None
+        if op[0] == "m":
+            self.mode = op[1]
+            oc, obs = "h1:set-mode", None
+        elif op[0] == "r":
+            func, raises = self.func(op[2])
+            self.chk.checks(op[1], raises=raises)(func)
+            self.reg[op[1]] = op[2]
+            self.table.add(op[1])
+            oc, obs = "h1:register", sorted(self.chk.checkers)
+            if set(self.chk.checkers) != self.table:
+                bad = ["history|table-after-registration-differs", {"table": obs, "model": sorted(self.table)}]
+        else:
+            entry, name, s = op[0], op[1], H_STR[op[2]]
+            exp = self.model(name, s)
+            self.exc = None
+            cause = None
+            try:
+                if entry == "v":
+                    errs = list(self.vals[name].iter_errors(s))
+                    if not errs:
+                        got = "pass"
+                    else:
+                        cause = errs[0].cause
+                        got = "fail-cause" if cause is not None and cause is self.exc else "fail"
+                        if len(errs) != 1 or errs[0].validator != "format":
+                            got = "other-errors"
+                else:
+                    r = self.chk.conforms(s, name)
+                    got = "nonbool" if type(r) is not bool else ("pass" if r else "fail")
+            except BaseException as e:
+                got = "propagate" if e is self.exc else "raise-" + ename(e)
+            if entry == "c" and exp == "fail-cause":
+                exp = "fail"
+            obs = [got, None if cause is None else ename(cause)]
+            ok = got == exp
+            if ok and got == "fail" and self.reg[name] != "builtin" and cause is not None:
+                ok = False          # nothing was raised by the registered function: there is no cause to show
+                got = "fail-with-a-cause"
+            kind = self.regkind(name)
+            oc = "h1:%s->%s" % (kind, got)
+            if not ok:
+                bad = ["history|%s|expected-%s|observed-%s|via-%s" % (kind, exp, got,
+                                                                       "validator" if entry == "v" else "conforms"),
+                       {"expected": exp, "observed": obs, "string": s, "format": name}]
+        if bad is None and not registries_intact():
+            bad = ["history|class-wide-or-draft-registry-changed", None]
+        return [oc, obs, bad]
+
+
+def run_h1(base, draft, ops):
+    return isolated.run_steps(lambda: World1(base, draft), ops, "history")
+
+
+def h1_leaves(firsts, depth):
+    mids = [list(m) for m in itertools.product(H1_OPS, repeat=depth - 2)]
+    return [[H1_OPS[i]] + m + [v] for i in firsts for m in mids for v in H1_VAL]
+
+
+def nursery_h1(arg):
+    base, draft = arg["world"]
+    return isolated.explore(h1_leaves(arg["firsts"], arg["depth"]), lambda ops: run_h1(base, draft, ops))
+
+
+def h2_strings(name):
+    return list(STRINGS_BY_FAMILY.get(_family(name), ("a", "")))
+
+
+def h2_objects(name):
+    out = ["lax", "strict"]
+    if name in CLASS_REGISTRY:
+        out.append("stock-new")
+    for a in DRAFT_CHECKERS:
+        if name in DRAFT_REGISTRIES[a]:
+            out.append("stock:" + a)
+            break
+    return out
+
+
+class World2(object):
+    """Several checker objects that have a function under the same name; each one's answers are its own."""
+
+    def __init__(self, name):
+        self.name = name
+        self.objs, self.vals, self.regs = {}, {}, {}
+        for label in h2_objects(name):
+            d = 7
+            if label == "lax":
+                chk = FormatChecker(formats=())
+                chk.checks(name)(lambda x: True)
+            elif label == "strict":
+                chk = FormatChecker(formats=())
+                chk.checks(name)(lambda x: False)
+            elif label == "stock-new":
+                chk = FormatChecker()
+            else:
+                chk = getattr(jsonschema, label[6:])
+                d = int(re.search(r"\d+", label).group())
+            self.objs[label] = chk
+            self.regs[label] = chk.checkers[name]
+            self.vals[label] = CLS[d]({"format": name}, format_checker=chk)
+
+    def apply(self, op):
+        label, s = op[0], h2_strings(self.name)[op[1]]
+        func, raises = self.regs[label]
+        exp = direct(func, raises, s)
+        try:
+            errs = list(self.vals[label].iter_errors(s))
+            gv = "pass" if not errs else "fail"
+        except BaseException as e:
+            gv = "raise-" + ename(e)
+        try:
+            r = self.objs[label].conforms(s, self.name)
+            gc = "nonbool" if type(r) is not bool else ("pass" if r else "fail")
+        except BaseException as e:
+            gc = "raise-" + ename(e)
+        kind = label.split(":")[0]
+        bad = None
+        if gv != exp or gc != exp:
+            bad = ["several-checkers|%s|own-function-says-%s|validator-%s|conforms-%s" % (kind, exp, gv, gc),
+                   {"format": self.name, "string": s, "object": label}]
+        elif not registries_intact():
+            bad = ["several-checkers|class-wide-or-draft-registry-changed", None]
+        return ["h2:%s->%s" % (kind, gv), [gv, gc], bad]
+
+
+def run_h2(name, ops):
+    return isolated.run_steps(lambda: World2(name), ops, "several-checkers")
+
+
+def h2_leaves(name, depth):
+    ops = [[label, i] for label in h2_objects(name) for i in (0, 1)]
+    return [list(t) for t in itertools.product(ops, repeat=depth)]
+
+
+def nursery_h2(arg):
+    return isolated.explore(h2_leaves(arg["name"], arg["depth"]), lambda ops: run_h2(arg["name"], ops))
+
+
 # ---------------------------------------------------------------- protocol
 
 PER_UNIT = 6
+PER_UNIT_NARROW = 150
 
 
 def plan(ctx):
     assert F.selftest() > 0
     units = []
     for d in DRAFTS:
-        for i in range(0, len(CONFIGS), PER_UNIT):
-            units.append((d, i))
-    INSTANCES, POSITIONS, STRINGS = instances(ctx.tier), positions(ctx.tier), strings(ctx.tier)
-    ncases = len(DRAFTS) * len(CONFIGS) * len(NAMES) * len(INSTANCES) * len(POSITIONS)
+        for i in range(0, N_WIDE, PER_UNIT):
+            units.append(("prod", d, i, min(i + PER_UNIT, N_WIDE)))
+        for i in range(N_WIDE, len(CONFIGS), PER_UNIT_NARROW):
+            units.append(("prod", d, i, min(i + PER_UNIT_NARROW, len(CONFIGS))))
+    g = H1_GROUP[ctx.tier]
+    for world in H1_WORLDS[ctx.tier]:
+        for i in range(0, len(H1_OPS), g):
+            units.append(("h1", world[0], world[1], i, min(i + g, len(H1_OPS))))
+    for name in REGISTERED:
+        units.append(("h2", name))
+    POSITIONS = positions(ctx.tier)
+    ncases = len(DRAFTS) * len(POSITIONS) * sum(len(names_for(c)) * len(instances_for(c, ctx.tier)) for c in CONFIGS)
+    h1_hist = len(H1_WORLDS[ctx.tier]) * sum(len(H1_OPS) ** k for k in range(1, H1_DEPTH[ctx.tier])) \
+        + len(H1_WORLDS[ctx.tier]) * len(H1_OPS) ** (H1_DEPTH[ctx.tier] - 1) * len(H1_VAL)
+    h2_hist = sum(sum((2 * len(h2_objects(n))) ** k for k in range(1, H2_DEPTH[ctx.tier] + 1)) for n in REGISTERED)
     return {
         "units": units,
-        "rule": ("case = (draft class, checker configuration, format name, instance, position); the full product of "
-                 "the five finite lists in bounds is executed (the thorough tier has a second valid/invalid string per "
+        "rule": ("product: case = (draft class, checker configuration, format name, instance, position); the full "
+                 "product of the finite lists in bounds is executed (the custom functions that raise one class of the "
+                 "wide exception alphabet see the names [their own, 'nope'] and four instances; the non-JSON Python "
+                 "values go to every non-custom checker and to the custom functions returning True / False / "
+                 "isinstance(str) registered without raises; the thorough tier has a second valid/invalid string per "
                  "family, ten more non-strings and three more schema positions: items, additionalProperties, $ref), so "
                  "cases are distinct by construction; each case runs iter_errors, check() and conforms() on the real "
-                 "code and is compared with the model `expected`; non-trivial = a checker is given and it knows the "
-                 "format name (something is decided); the remaining cases assert inertness"),
-        "bounds": {"names": NAMES, "instances": len(INSTANCES), "strings": STRINGS, "checker_configurations": len(CONFIGS),
+                 "code and is compared with the model `expected`; non-trivial = a checker is given and it decides "
+                 "something under the format name; the remaining cases assert inertness.  histories: every operation "
+                 "sequence of the stated depth over the stated operations (H1: sequences that end in a validation; all "
+                 "shorter ones are their prefixes), each leaf executed on fresh objects in its own forked child of a "
+                 "fresh interpreter, the model compared after every step; evaluations counts every distinct prefix "
+                 "once"),
+        "bounds": {"names": NAMES, "subclass_only_names": SUB_NAMES, "strings": strings(ctx.tier),
+                   "instances_json": len(strings(ctx.tier)) + len(NONSTRINGS) + len(SPECIALS)
+                   + (len(MORE_NONSTRINGS) if ctx.tier == "thorough" else 0),
+                   "instances_non_json_python": list(PY_TABLE), "checker_configurations": len(CONFIGS),
                    "custom_configurations": sum(1 for c in CONFIGS if c["kind"] == "custom"),
+                   "exception_classes": list(EXC), "raises_registrations_per_class": list(MODES),
+                   "exception_configurations": len(CONFIGS) - N_WIDE,
+                   "checker_subclasses": ["%s/%s" % sb for sb in SUBCLASS_KINDS],
                    "subset_base": SUBSET_BASE, "draft_checkers": DRAFT_CHECKERS, "drafts": list(DRAFTS),
-                   "positions": list(POSITIONS), "cases": ncases},
+                   "positions": list(POSITIONS), "cases": ncases,
+                   "H1": {"worlds(base checker, draft)": H1_WORLDS[ctx.tier], "depth": H1_DEPTH[ctx.tier],
+                          "operations": H1_OPS, "strings": H_STR, "histories": h1_hist},
+                   "H2": {"names": REGISTERED, "objects": {n: h2_objects(n) for n in REGISTERED},
+                          "depth": H2_DEPTH[ctx.tier], "histories": h2_hist}},
         "assumptions": ["custom functions are registered with FormatChecker.checks on fresh instances; the class-wide "
-                        "registry is snapshotted at import and asserted unchanged after every unit",
-                        "built-in x string cases are decided by conforms() (their grammars are C13's business)",
-                        "a custom function's return value is interpreted by truthiness"],
+                        "registry and the tables of the draft checker objects are snapshotted at import and asserted "
+                        "unchanged after every unit and after every step of a history",
+                        "built-in x string cases are decided by conforms() (their grammars are C13's business); in the "
+                        "histories the expected answer of a built-in registration is the registered function called "
+                        "directly",
+                        "a custom function's return value is interpreted by truthiness",
+                        "a custom function that raises FormatError itself is not in the alphabet (the property text "
+                        "gives it two readings)",
+                        "a checker object is anything with check(); where conforms() is overridden it is overridden "
+                        "consistently with check()",
+                        "one open finding: an unlisted StopIteration (or subclass) cannot cross the generator that "
+                        "implements the keyword (PEP 479), signature kept as F20"],
     }
 
 
@@ -435,25 +1146,24 @@ def quiet_conforms(chk, x, name):
         return False
 
 
-def run_unit(unit, ctx):
-    d, i0 = unit
+def run_product(unit, ctx):
+    _, d, i0, i1 = unit
     ev = nt = off_would_reject = 0
     outcomes, viol, samples, seen = {}, [], [], {}
     default = FormatChecker()
-    INSTANCES, POSITIONS = instances(ctx.tier), positions(ctx.tier)
-    for cfg in CONFIGS[i0:i0 + PER_UNIT]:
+    POSITIONS = positions(ctx.tier)
+    for cfg in CONFIGS[i0:i1]:
         built = Built(cfg)
-        for name in NAMES:
-            known = name in built.known
+        INSTANCES = instances_for(cfg, ctx.tier)
+        for name in names_for(cfg):
+            known = built.decides(name)
             for pos in POSITIONS:
                 for x0 in INSTANCES:
                     x = real(x0)
                     if isinstance(x0, Special):
                         if pos != "top" or expected(cfg, built.known, name, x) != "pass":
                             continue
-                        xdesc = x0.desc()
-                    else:
-                        xdesc = x
+                    xdesc = x0.desc() if isinstance(x0, (Special, Py)) else x
                     ev += 1
                     exp, obs, prob = judge(built, d, pos, name, x)
                     if cfg["kind"] != "none" and known:
@@ -461,6 +1171,8 @@ def run_unit(unit, ctx):
                     elif cfg["kind"] == "none" and not quiet_conforms(default, x, name):
                         off_would_reject += 1       # vacuity guard: "off" is observable on these
                     key = "%s:%s->%s" % (cfg["kind"], exp, obs)
+                    if isinstance(x0, Py):
+                        key += ":python-" + ("str-subclass" if isinstance(x, str) else "non-string")
                     outcomes[key] = outcomes.get(key, 0) + 1
                     if prob is not None:
                         sig = "C12|" + prob[0]
@@ -473,15 +1185,104 @@ def run_unit(unit, ctx):
                     elif len(samples) < 2 and known and ev % 211 == 7:
                         samples.append({"draft": d, "checker": cfg, "format": name, "instance": xdesc, "position": pos,
                                         "expected": exp, "observed": obs})
-    if dict(FormatChecker.checkers) != CLASS_REGISTRY:
+    if not registries_intact():
         raise AssertionError("harness polluted the class-wide FormatChecker registry")
+    dependent = 0
+    if viol:
+        # A worker has executed many cases before this one, and a configuration's checker object serves all its
+        # cases.  Each reported case is executed once more alone, in its own child of a fresh interpreter: what
+        # happens there is what a replay will show, and decides the signature.
+        alone = isolated.run("mc.props.c12", "nursery_cases", [v["case"] for v in viol])
+        for v, tail in zip(viol, alone):
+            if tail is None:
+                dependent += 1
+                v["detail"]["signature_in_the_worker"] = v["signature"]
+                v["detail"]["alone_in_a_fresh_process"] = "no violation"
+                v["signature"] = "C12|verdict-depends-on-earlier-cases-in-the-process"
+            elif "C12|" + tail != v["signature"]:
+                v["detail"]["signature_in_the_worker"] = v["signature"]
+                v["signature"] = "C12|" + tail
     return {"evaluations": ev, "nontrivial": nt, "violations": viol, "samples": samples, "outcomes": outcomes,
-            "counters": {"violating_cases": sum(seen.values()),
+            "counters": {"violating_cases": sum(seen.values()), "reported_cases_that_need_earlier_cases": dependent,
                          "no_checker_cases_a_default_checker_would_reject": off_would_reject}}
 
 
-def replay(case, ctx):
+def judge_case(case):
     built = Built(case["checker"])
-    exp, obs, prob = judge(built, case["draft"], case["position"], case["format"], real(case["instance"]))
+    return judge(built, case["draft"], case["position"], case["format"], real(case["instance"]))
+
+
+def nursery_cases(cases):
+    def alone(case):
+        prob = judge_case(case)[2]
+        return None if prob is None else prob[0]
+    return isolated.fork_each(cases, alone)
+
+
+def run_histories(unit, ctx):
+    if unit[0] == "h1":
+        world = [unit[1], unit[2]]
+        res = isolated.run("mc.props.c12", "nursery_h1",
+                           {"world": world, "firsts": list(range(unit[3], unit[4])), "depth": H1_DEPTH[ctx.tier]})
+        head = {"history": "H1", "base": unit[1], "draft": unit[2]}
+    else:
+        res = isolated.run("mc.props.c12", "nursery_h2", {"name": unit[1], "depth": H2_DEPTH[ctx.tier]})
+        head = {"history": "H2", "format": unit[1]}
+    viol, seen = [], {}
+    for v in sorted(res["violations"], key=lambda v: (len(v["ops"]), repr(v["ops"]))):
+        sig = "C12|" + v["bad"][0]
+        n = seen.get(sig, 0)
+        seen[sig] = n + 1
+        if n < 3:
+            viol.append({"signature": sig, "case": dict(head, ops=v["ops"]), "size": len(v["ops"]),
+                         "detail": v["bad"][1]})
+    trivial = sum(n for k, n in res["outcomes"].items() if k in ("h1:set-mode", "h1:register") or "unknown-name" in k)
+    samples = []
+    if not res["violations"] and unit[-1] in (3, "ipv4"):
+        samples.append(dict(head, leaves=res["leaves"], outcomes=res["outcomes"]))
+    if not registries_intact():
+        raise AssertionError("harness polluted the class-wide FormatChecker registry")
+    return {"evaluations": res["histories"], "nontrivial": res["histories"] - trivial, "violations": viol,
+            "samples": samples, "outcomes": res["outcomes"],
+            "counters": {"violating_cases": sum(seen.values()), "histories": res["histories"],
+                         "leaf_histories_each_in_its_own_process": res["leaves"]}}
+
+
+def run_unit(unit, ctx):
+    if unit[0] == "prod":
+        return run_product(unit, ctx)
+    return run_histories(unit, ctx)
+
+
+MANY_CLASSES = 6
+
+
+def finish(merged, plan, ctx):
+    """One defect, a handful of signatures: where the same failure shows for MANY_CLASSES or more classes of the
+    exception alphabet the class is not what distinguishes it, and it is replaced by the number of classes (the
+    class stays in every case).  Deterministic: computed from the complete set of violations of the run."""
+    groups = {}
+    for v in merged["violations"]:
+        b = v["case"].get("checker", {}).get("behaviour") if isinstance(v["case"], dict) else None
+        if b and b[0] == "raise-class" and ("-raise-%s" % b[1]) in v["signature"]:
+            general = v["signature"].replace("-raise-%s" % b[1], "-raise-<CLASS>", 1)
+            groups.setdefault(general, []).append((v, b[1]))
+    for general, members in groups.items():
+        classes = sorted({c for _, c in members})
+        if len(classes) >= MANY_CLASSES:
+            for v, c in members:
+                v["detail"]["signature_with_the_class"] = v["signature"]
+                v["detail"]["classes_with_this_failure"] = classes
+                v["signature"] = general.replace("<CLASS>", "<%d-exception-classes>" % len(classes))
+
+
+def replay(case, ctx):
+    if "history" in case:
+        ops = case["ops"]
+        steps = run_h1(case["base"], case["draft"], ops) if case["history"] == "H1" else run_h2(case["format"], ops)
+        return {"reproduced": steps[-1][2] is not None, "steps": [[s[0], s[1]] for s in steps],
+                "problem": None if steps[-1][2] is None else steps[-1][2][0],
+                "detail": None if steps[-1][2] is None else steps[-1][2][1]}
+    exp, obs, prob = judge_case(case)
     return {"reproduced": prob is not None, "expected": exp, "observed": obs,
             "problem": None if prob is None else prob[0], "detail": None if prob is None else prob[1]}
